@@ -85,7 +85,7 @@ def build_history(d, rng, nsteps):
     commit()
     for _ in range(nsteps):
         op = rng.choice(["commit", "commit", "branch", "tag", "delbranch", "reset", "repack-keep", "repack-ad", "detach", "symlink", "gitlink",
-                         "unreachable-blob", "alternate", "age", "merge", "tag-of-blob", "pack-refs"])
+                         "unreachable-blob", "alternate", "age", "merge", "tag-of-blob", "pack-refs", "unreachable-old-pack-young-loose"])
         try:
             if op == "commit":
                 commit()
@@ -135,6 +135,19 @@ def build_history(d, rng, nsteps):
             elif op == "unreachable-blob":
                 core.git(["hash-object", "-w", "--stdin"], cwd=d, input=b"unreachable %d\n" % rng.randrange(10 ** 6))
                 feats.add("unreachable-object")
+            elif op == "unreachable-old-pack-young-loose":
+                # the same unreachable object in an old pack and as a freshly written loose file: its age is that of the youngest copy
+                data = b"unreachable duplicate %d\n" % rng.randrange(10 ** 6)
+                oid = core.git(["hash-object", "-w", "--stdin"], cwd=d, input=data).stdout.strip().decode()
+                core.git(["repack", "-adkq"], cwd=d)
+                age_everything(d, rng, 1.0)
+                lp = os.path.join(d, ".git", "objects", oid[:2], oid[2:])
+                if not os.path.exists(lp):
+                    import zlib
+                    os.makedirs(os.path.dirname(lp), exist_ok=True)
+                    with open(lp, "wb") as f:
+                        f.write(zlib.compress(b"blob %d\0" % len(data) + data))
+                    feats.add("unreachable-old-pack-young-loose")
             elif op == "alternate" and "alternate" not in feats:
                 alt = d + "-alt"
                 core.git(["clone", "-q", "--bare", d, alt])
@@ -249,7 +262,7 @@ def run_seq(case):
             done.append(step)
             stats["maintenance_steps"] = stats.get("maintenance_steps", 0) + 1
             ftag = "+".join(sorted(f for f in feats if f in ("alternate", "gitlink-entry", "symlink-entry", "detached-head-only-commit", "tag-of-blob",
-                                                              "pack+loose-duplicates")))[:80]
+                                                              "pack+loose-duplicates", "unreachable-old-pack-young-loose")))[:80]
             r = Repo(d)
             try:
                 bad = 0
